@@ -53,6 +53,8 @@ type Conn struct {
 	blackhole [2]bool
 	cutAfter  [2]int64
 	delay     time.Duration
+	dirDelay  [2]time.Duration
+	firstN    int // > 0: 'delay' applies only to the first firstN chunks
 	closed    bool
 	bytes     [2]int64
 }
@@ -143,6 +145,13 @@ func (c *Conn) pump(dir int, from, to net.Conn, first []byte) {
 			bh := c.blackhole[dir]
 			cut := c.cutAfter[dir]
 			delay := c.delay
+			if c.firstN > 0 {
+				c.firstN--
+				if c.firstN == 0 {
+					c.delay = 0
+				}
+			}
+			delay += c.dirDelay[dir]
 			sent := c.bytes[dir]
 			c.mu.Unlock()
 			if bh {
@@ -208,7 +217,9 @@ func (c *Conn) Close() {
 
 func (c *Conn) IsClosed() bool { c.mu.Lock(); defer c.mu.Unlock(); return c.closed }
 
-func (c *Conn) IsWS() bool      { return bytes.Contains(bytes.ToLower(c.Head), []byte("upgrade: websocket")) }
+func (c *Conn) IsWS() bool {
+	return bytes.Contains(bytes.ToLower(c.Head), []byte("upgrade: websocket"))
+}
 func (c *Conn) IsPost() bool    { return bytes.HasPrefix(c.Head, []byte("POST ")) }
 func (c *Conn) IsPollGet() bool { return bytes.HasPrefix(c.Head, []byte("GET ")) && !c.IsWS() }
 
@@ -235,6 +246,16 @@ func (c *Conn) SetBlackhole(c2s, s2c bool) {
 func (c *Conn) SetStall(on bool) { c.mu.Lock(); c.stall = on; c.cond.Broadcast(); c.mu.Unlock() }
 
 func (c *Conn) SetDelay(d time.Duration) { c.mu.Lock(); c.delay = d; c.mu.Unlock() }
+
+// SetDelayFirst delays only the first n chunks (both directions counted together) by d.
+func (c *Conn) SetDelayFirst(d time.Duration, n int) {
+	c.mu.Lock()
+	c.delay, c.firstN = d, n
+	c.mu.Unlock()
+}
+
+// SetDirDelay delays every chunk in one direction.
+func (c *Conn) SetDirDelay(dir int, d time.Duration) { c.mu.Lock(); c.dirDelay[dir] = d; c.mu.Unlock() }
 
 func (c *Conn) Bytes(dir int) int64 { c.mu.Lock(); defer c.mu.Unlock(); return c.bytes[dir] }
 
